@@ -21,6 +21,10 @@ def main():
         import check_c04 as m
     elif pid == "C20":
         import check_c20 as m
+    elif pid == "C07":
+        import check_c07 as m
+    elif pid == "C14":
+        import check_c14 as m
     elif pid == "C17":
         import check_c17 as m
     else:
